@@ -2810,6 +2810,7 @@ class MOFCompiler:
 
         self.conn = conn  # Only used for closing it.
         self._log_func = log_func
+        self._active_files = []  # MOF files currently being compiled
 
         self.parser = _yacc(verbose)
 
@@ -3067,7 +3068,15 @@ class MOFCompiler:
         with open(filename, encoding='utf-8') as f:
             mof = f.read()
 
-        return self.compile_string(mof, ns, filename=filename)
+        if os.path.abspath(filename) in self._active_files:
+            raise MOFParseError(
+                msg=_format("MOF file {0!A} is included (or searched as a "
+                            "dependency) recursively", filename))
+        self._active_files.append(os.path.abspath(filename))
+        try:
+            return self.compile_string(mof, ns, filename=filename)
+        finally:
+            self._active_files.pop()
 
     def find_mof(self, classname):
         """
